@@ -16,8 +16,8 @@ EXPLANATION = ('Engine M executes the real Voronoi::finalize, VoronoiCell::face_
 def check(run):
     funcs, info = engine.load_mir('ibig')
     run.mir_info.append(info)
-    BR.check_direct_build_closure(run, funcs, 'C12')
-    BR.check_integrator_closures(run, funcs, 'C12')
+    run.guard(BR.check_direct_build_closure, funcs, 'C12')
+    run.guard(BR.check_integrator_closures, funcs, 'C12')
     if run.tier == 'quick':
         CN.check(run, funcs, 'C12', 3, 2)
     else:
